@@ -103,12 +103,16 @@ def run_one(case, script, instrument):
     funcs = case["_funcs"]
     rules = case["rules"]
     n_calls = [0]
+    processed = {}  # id(msg) -> msg (the reference keeps the id from being reused)
 
     def proc(msg):
         n = n_calls[0]
         n_calls[0] += 1
         payload = G.canon_msg(msg)[1]
         log.append(["proc", payload, n])
+        if id(msg) in processed:
+            log.append(["reproc", payload, n])   # never happens on a correct plan_mutator
+        processed[id(msg)] = msg
         for i, rule in enumerate(rules):
             if rule["payload"] == payload:
                 out = []
@@ -187,6 +191,11 @@ def _origin(payload):
 def oracle(case, script, trace, log):
     """the statement of C21 on what actually happened; returns [(sig, text)]"""
     bad = []
+    # (c0) a message OBJECT that has gone through the processor is never processed again, however often it is re-yielded
+    for ev in log:
+        if ev[0] == "reproc":
+            bad.append(("original-message-object-processed-again", f"msg_proc was called a second time (call #{ev[2]}) with the SAME message object (payload {ev[1]}) it had already processed"))
+            return bad
     # (c) inserted messages are not themselves re-processed
     for ev in log:
         if ev[0] == "proc" and _origin(ev[1]) != "host":
@@ -348,7 +357,7 @@ def _cases(ctx):
     hosts = [s for n in range(1, (4 if deep else 3)) for s in G.enum_stmts(n)]
     hosts += [["yieldShared", 0, True], ["seq", ["yieldShared", 0, True], ["ret", ["var"]]], ["seq", ["yieldShared", 0, True], ["yieldShared", 0, True]]]
     heads = [None, Y, ["seq", Y, Y], ["yieldShared", 0, True], ["raise", "E2", 2], ["pass"], ["seq", Y, ["raise", "E2", 2]], ["try", Y, "Exception", ["ret", ["var"]], ["pass"], ["pass"]]]
-    tails = [None, Y, ["raise", "E2", 3], ["pass"], ["seq", Y, Y]]
+    tails = [None, Y, ["raise", "E2", 3], ["pass"], ["seq", Y, Y], ["yieldShared", 0, True], ["seq", Y, ["yieldShared", 0, True]]]
     combos = [(h, t) for h in heads for t in tails if not (h is None and t is None)]
     for host in hosts:
         small = G.size(host) <= (2 if deep else 1)
